@@ -24,6 +24,12 @@
 //! definitions with all 36 kinds of CoordinateSet the library offers; there the reference applies
 //! its stand-alone steps to a container of the same kind (which narrows after every step), and the
 //! stored elements are compared (see "operand containers of every supported kind" below).
+//!
+//! Length: sections 1-6 use pipelines of at most a dozen steps. Sections `long-pipelines-placed` and
+//! `long-pipelines` cross the same oracle with the LENGTH of the pipeline (1..300 steps, concentrated
+//! around powers of two, in the definition and in macro bodies, also a long macro body as a step of a
+//! long pipeline) and with the POSITION of the modified steps counted from the front and from the back
+//! (see "long pipelines" below).
 
 use geodesy::authoring::Tokenize;
 use geodesy::prelude::*;
@@ -812,7 +818,9 @@ fn check(case: &Case, known: &BTreeSet<String>, rec: &mut Rec) -> CaseResult {
 
     // --- bookkeeping
     let any_mod = record_classes(case, &reach, rec);
-    rec.class(&format!("steps={}", case.main.steps.len()));
+    // (the long-pipeline sections report their lengths in classes of their own)
+    let ns = case.main.steps.len();
+    rec.class(&if ns <= 12 { format!("steps={ns}") } else { format!("steps={}", len_label(ns)) });
     rec.class(&format!("depth={}", depth(case, &case.main)));
     rec.class(if case.main.piped { "main=pipeline" } else { "main=single" });
     if case.bulk.is_none() {
@@ -2393,6 +2401,505 @@ fn container_case(kn: Known) -> impl Strategy<Value = ContCase> {
     prop_oneof![2 => random, 3 => shaped]
 }
 
+// ---- long pipelines --------------------------------------------------------------------------------
+//
+// The property is stated for pipelines "of any length". The sections above stop at a dozen steps per
+// pipeline, so whatever an implementation does per step in a way that depends on the NUMBER or the
+// INDEX of the steps (flags packed into machine words, small-vector spill-over, u8 counters, fixed
+// buffers, chunked loops) is out of their reach. The two sections below add the length dimension:
+// pipelines (definitions and macro bodies) of 1..300 steps, with the lengths concentrated around the
+// sizes at which implementations typically change behaviour (powers of two and their neighbours), built
+// from cheap operators whose results stay finite and distinct over hundreds of steps (addone, helmert
+// translations by small integers, axisswap, noop), so that one step too many or too few, or two steps
+// exchanged, shows in the coordinates; steps that count fewer tuples than the others (cart on a NaN
+// tuple; the inverse of a one-way operator, which leaves the data alone and reports 0, so that the
+// count is the ONLY witness) make the count sensitive too. The oracle is the same reference
+// interpreter (`check`): stand-alone steps one after another, bit for bit, counts included.
+
+/// pipeline lengths, ascending (so that a smaller selector is a shorter pipeline: shrinking)
+const LONG_SIZES: [usize; 46] = [
+    1, 2, 3, 4, 5, 6, 7, 8, 9, 10, 12, 15, 16, 17, 20, 24, 31, 32, 33, 40, 48, 63, 64, 65, 66, 67, 70, 80, 96, 100, 120, 127, 128, 129, 130, 140, 160, 192, 200, 255, 256, 257, 258, 260, 280, 300,
+];
+/// the sizes around which the placed modifiers are put (index from the front = forward visiting order,
+/// index from the back = inverse visiting order)
+const EDGES: [usize; 6] = [8, 16, 32, 64, 128, 256];
+
+fn len_label(len: usize) -> String {
+    for e in EDGES {
+        if len + 1 >= e && len <= e + 1 {
+            return format!("{len}(={e}{})", if len < e { "-1" } else if len > e { "+1" } else { "" });
+        }
+    }
+    let mut lo = 1;
+    for e in EDGES {
+        if len < e {
+            return format!("{}..{}", lo, e - 2);
+        }
+        lo = e + 2;
+    }
+    format!("{lo}..")
+}
+
+/// visiting index (0-based) of a step -> class
+fn visit_label(i: usize) -> &'static str {
+    match i {
+        0 => "0",
+        1..=7 => "1..7",
+        8..=15 => "8..15",
+        16..=31 => "16..31",
+        32..=63 => "32..63",
+        64..=127 => "64..127",
+        128..=255 => "128..255",
+        _ => "256..",
+    }
+}
+
+/// cheap operators whose results stay finite and exactly representable for integer operands; the plain
+/// seed (0) gives `addone` throughout
+fn cheap_target(l: &mut Lay) -> Target {
+    // (a small catalogue, about 50 distinct steps: the stand-alone operators of the reference are instantiated
+    // once per distinct step and case, and instantiation is what a long case costs)
+    let sm = |l: &mut Lay| [1, -3, 7, -8][l.pick(4)];
+    match l.pick(14) {
+        0..=3 => el("addone", vec![]),
+        4 | 5 => el("helmert", vec![kv("x", sm(l)), kv("y", sm(l))]),
+        6 => el("helmert", vec![kv("z", sm(l))]),
+        7 => el("helmert", vec![kv("x", sm(l))]),
+        8 => el("helmert", vec![kv("translation", format!("{},{},5", sm(l), sm(l)))]),
+        9 | 10 => el("axisswap", vec![kv("order", ORDERS[l.pick(6)])]),
+        11 => el(NOOPS[l.pick(2)], vec![]),
+        12 => el("helmert", vec![kv("x", sm(l)), kv("y", 2), kv("z", sm(l))]),
+        _ => el("helmert", vec![kv("y", sm(l))]),
+    }
+}
+
+/// One modifier placement: where (anywhere / around an edge counted from the front / from the back /
+/// among the first three / among the last three), which modifiers in which spelling, and what the step
+/// is (left as it is / a one-way operator marked omit_inv / cart / an invocation of a macro).
+#[derive(Clone, Debug)]
+struct RawPlace {
+    anchor: u8,
+    sel: u16,
+    off: u8,
+    inv: Option<u8>,
+    of: Option<u8>,
+    oi: Option<u8>,
+    target: u8,
+    a: u16,
+    lay: u32,
+}
+
+fn raw_place() -> impl Strategy<Value = RawPlace> {
+    (
+        0u8..8,
+        any::<u16>(),
+        any::<u8>(),
+        prop::option::weighted(0.35, 0u8..5),
+        prop::option::weighted(0.45, 0u8..6),
+        prop::option::weighted(0.45, 0u8..6),
+        0u8..16,
+        any::<u16>(),
+        lay(),
+    )
+        .prop_map(|(anchor, sel, off, inv, of, oi, target, a, lay)| RawPlace { anchor, sel, off, inv, of, oi, target, a, lay })
+}
+
+fn place_index(p: &RawPlace, len: usize) -> usize {
+    let fit: Vec<usize> = EDGES.iter().copied().filter(|e| *e <= len + 2).collect();
+    let d = (p.off % 5) as isize - 2;
+    let near = (p.off % 3) as isize;
+    let cand: isize = match p.anchor % 8 {
+        0 | 1 => return pick(p.sel, len),
+        2 | 3 if !fit.is_empty() => fit[pick(p.sel, fit.len())] as isize + d,
+        4 | 5 if !fit.is_empty() => len as isize - 1 - (fit[pick(p.sel, fit.len())] as isize + d),
+        6 => near,
+        7 => len as isize - 1 - near,
+        _ => return pick(p.sel, len),
+    };
+    if cand < 0 || cand >= len as isize {
+        pick(p.sel, len)
+    } else {
+        cand as usize
+    }
+}
+
+/// macro invocations are only put where `cands` is non-empty; `force_macro` ignores the drawn target
+fn apply_place(s: &mut Step, p: &RawPlace, cands: &[usize], force_macro: bool) {
+    let mut inv = p.inv.map(|i| INV_SP[i as usize % 5]);
+    let mut of = p.of.map(|i| OMIT_SP[i as usize % 6]);
+    let mut oi = p.oi.map(|i| OMIT_SP[i as usize % 6]);
+    let t = if force_macro { 15 } else { p.target % 16 };
+    match t {
+        8 | 9 => {
+            // a step without an inverse, forward only: executed inverse it would leave the data alone and report 0
+            let (name, params) = one_way_elem(p.a, p.a >> 1, p.a >> 4);
+            s.target = Target::Elem { name, params };
+            inv = None;
+            oi = oi.or(Some(OMIT_SP[p.off as usize % 6]));
+        }
+        10 | 11 => s.target = el("cart", if p.a & 1 == 1 { vec![kv("ellps", ELLPS[pick(p.a, ELLPS.len())])] } else { vec![] }),
+        12..=15 if !cands.is_empty() => s.target = Target::Macro(cands[pick(p.a, cands.len())]),
+        _ => {}
+    }
+    if inv.is_none() && of.is_none() && oi.is_none() {
+        // a placement always carries something
+        match p.off % 3 {
+            0 => of = Some(OMIT_SP[p.sel as usize % 6]),
+            1 => oi = Some(OMIT_SP[p.sel as usize % 6]),
+            _ => inv = Some(INV_SP[p.sel as usize % 5]),
+        }
+        if matches!(&s.target, Target::Elem { name, .. } if one_way(name)) {
+            inv = None;
+            oi = Some(OMIT_SP[p.sel as usize % 6]);
+        }
+    }
+    s.inv = inv;
+    s.omit_fwd = of;
+    s.omit_inv = oi;
+    s.lay = p.lay;
+}
+
+/// background of a long pipeline:
+/// 0 = no modifiers, 1 = `inv` on 1 step in 7, 2 = dense (inv 30%, omit_fwd 10%, omit_inv 10%),
+/// 3 = every step omit_fwd, 4 = every step omit_inv
+fn long_body(len: usize, seed: u32, salt: u64, background: u8, lay: u32) -> Body {
+    let mut l = Lay::new(seed, salt);
+    let mut steps = Vec::with_capacity(len);
+    for k in 0..len {
+        let mut s = plain(cheap_target(&mut l));
+        // token layout of the steps: one step in four (rendering 300 seeded steps per case is not the point here)
+        if lay != 0 && l.pick(4) == 3 {
+            s.lay = (lay ^ (k as u32).wrapping_mul(2654435761)) | 1;
+        }
+        match background {
+            1 => {
+                if l.pick(7) == 6 {
+                    s.inv = Some(INV_SP[l.pick(5)]);
+                }
+            }
+            2 => {
+                if l.pick(10) >= 7 {
+                    s.inv = Some(INV_SP[l.pick(5)]);
+                }
+                if l.pick(10) == 9 {
+                    s.omit_fwd = Some(OMIT_SP[l.pick(6)]);
+                }
+                if l.pick(10) == 9 {
+                    s.omit_inv = Some(OMIT_SP[l.pick(6)]);
+                }
+            }
+            3 => s.omit_fwd = Some(OMIT_SP[(k + l.pick(6)) % 6]),
+            4 => s.omit_inv = Some(OMIT_SP[(k + l.pick(6)) % 6]),
+            _ => {}
+        }
+        steps.push(s);
+    }
+    Body { steps, piped: true, lay, spicy: false }
+}
+
+const LONG_PROBES: [[f64; 4]; 4] = [[1.0, 2.0, 3.0, 4.0], [-12.5, 55.25, 100.0, 2020.0], [f64::NAN, 1.0, 2.0, 3.0], [0.1, -0.3, 1e-3, 0.0]];
+
+fn long_probes(sel: u8) -> Vec<P4> {
+    let n = 1 + (sel % 3) as usize;
+    (0..n).map(|i| LONG_PROBES[(i + (sel / 3) as usize) % 4]).map(|p| p4(p[0], p[1], p[2], p[3])).collect()
+}
+
+#[derive(Clone, Debug)]
+struct RawLong {
+    len: usize,
+    seed: u32,
+    background: u8,
+    lay: u32,
+    places: Vec<RawPlace>,
+}
+
+fn long_len() -> impl Strategy<Value = usize> {
+    prop_oneof![
+        7 => any::<u16>().prop_map(|u| LONG_SIZES[pick(u, LONG_SIZES.len())]),
+        2 => 1usize..=300,
+        1 => 60usize..=140,
+    ]
+}
+
+fn raw_long() -> impl Strategy<Value = RawLong> {
+    let background = prop_oneof![4 => Just(0u8), 3 => Just(1u8), 3 => Just(2u8), 1 => Just(3u8), 1 => Just(4u8)];
+    (long_len(), any::<u32>(), background, lay(), prop::collection::vec(raw_place(), 0..=4)).prop_map(|(len, seed, background, lay, places)| RawLong { len, seed, background, lay, places })
+}
+
+fn build_long_body(rl: &RawLong, cap: usize, salt: u64, cands: &[usize], invocations: &[RawPlace]) -> Body {
+    let len = rl.len.min(cap).max(1);
+    let mut b = long_body(len, rl.seed, salt, rl.background, rl.lay);
+    for p in &rl.places {
+        // (macro invocations come from `invocations` only: their number bounds the cost of a case)
+        let i = place_index(p, len);
+        apply_place(&mut b.steps[i], p, &[], false);
+    }
+    if !cands.is_empty() {
+        for p in invocations {
+            let i = place_index(p, len);
+            apply_place(&mut b.steps[i], p, cands, true);
+        }
+    }
+    b
+}
+
+/// Random long pipelines: the definition itself, a macro body invoked alone or as a step of a short
+/// pipeline, a long macro body used as a step of a long pipeline, and two long macro bodies nested.
+fn long_case(kn: Known) -> impl Strategy<Value = Case> {
+    (0u8..12, raw_long(), raw_long(), raw_long(), prop::collection::vec(raw_place(), 3), any::<u8>(), lay()).prop_map(move |(shape, main, m0, m1, inv, probes, l_main)| {
+        let short = |steps: Vec<Step>, piped: bool| Body { steps, piped, lay: l_main, spicy: false };
+        let (macros, main): (Vec<MacroDef>, Body) = match shape {
+            // the long pipeline behind a macro invoked alone (no step delimiter in the definition) ...
+            6 => {
+                let m = MacroDef { name: NAMES[0].into(), body: build_long_body(&m0, 300, 11, &[], &[]) };
+                let mut s = plain(Target::Macro(0));
+                s.inv = inv[0].inv.map(|i| INV_SP[i as usize % 5]);
+                s.lay = inv[0].lay;
+                (vec![m], short(vec![s], false))
+            }
+            // ... or as a step of a short pipeline, with modifiers on the invocation
+            7 => {
+                let m = MacroDef { name: NAMES[0].into(), body: build_long_body(&m0, 300, 11, &[], &[]) };
+                let mut s = plain(Target::Macro(0));
+                apply_place(&mut s, &inv[0], &[0], true);
+                let mut steps = vec![plain(el("addone", vec![])), s, plain(el("helmert", vec![kv("x", 2), kv("y", -3)]))];
+                steps.rotate_left(pick(inv[0].a, 3));
+                (vec![m], short(steps, true))
+            }
+            // a long macro body used (once or twice) as a step of a long pipeline
+            8 | 9 | 10 => {
+                let m = MacroDef { name: NAMES[0].into(), body: build_long_body(&m0, 140, 11, &[], &[]) };
+                let n_inv = 1 + (shape == 10) as usize;
+                let b = build_long_body(&main, 300, 13, &[0], &inv[..n_inv]);
+                (vec![m], b)
+            }
+            // two long macro bodies nested, below a long pipeline
+            11 => {
+                let ma = MacroDef { name: NAMES[0].into(), body: build_long_body(&m0, 100, 11, &[], &[]) };
+                let mb = MacroDef { name: NAMES[1].into(), body: build_long_body(&m1, 100, 12, &[0], &inv[..1]) };
+                let b = build_long_body(&main, 150, 13, &[1], &inv[1..2]);
+                (vec![ma, mb], b)
+            }
+            _ => (vec![], build_long_body(&main, 300, 13, &[], &[])),
+        };
+        let mut case = Case { macros, main, probes: long_probes(probes), excluded: vec![], bulk: None };
+        strip_unsound_inv(&mut case);
+        sanitize(&mut case, kn);
+        strip_unsound_inv(&mut case);
+        case
+    })
+}
+
+// ---- long pipelines with ONE directional step, placed deterministically ----------------------------------
+
+const PLACED_SIZES: [usize; 29] = [1, 2, 3, 5, 7, 8, 9, 15, 16, 17, 31, 32, 33, 63, 64, 65, 66, 70, 100, 127, 128, 129, 130, 200, 255, 256, 257, 258, 300];
+const PLACED_CFG: usize = 11;
+const PLACED_WHERE: usize = 4;
+
+/// first, second, third, middle, third last, second last, last; k-1, k, k+1 for the edges k, counted from
+/// the front and from the back
+fn placed_positions(len: usize) -> Vec<usize> {
+    let mut v: BTreeSet<usize> = BTreeSet::new();
+    let mut put = |i: isize| {
+        if i >= 0 && (i as usize) < len {
+            v.insert(i as usize);
+            v.insert(len - 1 - i as usize);
+        }
+    };
+    for i in [0, 1, 2, len as isize / 2] {
+        put(i);
+    }
+    for e in EDGES {
+        for d in [-1, 0, 1] {
+            put(e as isize + d);
+        }
+    }
+    v.into_iter().collect()
+}
+
+fn placed_table() -> Vec<(usize, usize)> {
+    PLACED_SIZES.iter().flat_map(|len| placed_positions(*len).into_iter().map(move |p| (*len, p))).collect()
+}
+
+/// `cross`: the place of the long pipeline is crossed with the rest (thorough); otherwise it rotates too
+fn placed_case(table: &[(usize, usize)], i: usize, cross: bool) -> Case {
+    let base = table.len() * PLACED_CFG * PLACED_WHERE;
+    let rep = if cross { i / base } else { 0 }; // thorough: the rotations below start somewhere else
+    let pair = i % table.len();
+    let cfg = (i / table.len()) % PLACED_CFG;
+    let wh = if cross { (i / table.len() / PLACED_CFG) % PLACED_WHERE } else { (pair + cfg) % PLACED_WHERE };
+    let (len, pos) = table[pair];
+    let osp = OMIT_SP[(pair * 7 + cfg * 3 + wh + rep) % 6];
+    let osp2 = OMIT_SP[(pair * 5 + cfg + wh * 2 + rep + 1) % 6];
+    let isp = INV_SP[(pair * 3 + cfg + wh + rep) % 5];
+    let h = splitmix((i as u64) << 8 ^ 0xC03);
+    let lay = if (pair + cfg + rep) % 3 == 0 { 0 } else { (h as u32) | 1 };
+    // background: `inv` on one step in seven; configurations 9 and 10: every other step omitted in one direction
+    let background = match cfg {
+        9 => 3,
+        10 => 4,
+        _ => 1,
+    };
+    let mut long = long_body(len, (splitmix(len as u64 * 31 + rep as u64) as u32) | 1, 17, background, lay);
+    // helper macros for the focus step
+    let mut p2c = plain(el("addone", vec![]));
+    p2c.omit_inv = Some(Sp::Sugar);
+    let mut helpers = vec![
+        MacroDef { name: "s:one".into(), body: Body { steps: vec![plain(el("helmert", vec![kv("x", 5), kv("z", -2)]))], piped: false, lay: 0, spicy: false } },
+        MacroDef {
+            name: "p:two".into(),
+            body: Body { steps: vec![plain(el("helmert", vec![kv("x", 10)])), plain(el("axisswap", vec![kv("order", "2,1")])), p2c], piped: true, lay: 0, spicy: false },
+        },
+    ];
+    let kind = (pair + cfg + wh + rep) % 3;
+    let focus = &mut long.steps[pos];
+    focus.lay = if lay == 0 { 0 } else { (h >> 32) as u32 | 1 };
+    focus.inv = None;
+    focus.omit_fwd = None;
+    focus.omit_inv = None;
+    if !matches!(cfg, 6 | 7 | 8) {
+        match kind {
+            1 => focus.target = Target::Macro(0),
+            2 => focus.target = Target::Macro(1),
+            _ => {}
+        }
+    }
+    match cfg {
+        0 => focus.inv = Some(isp),
+        1 => focus.omit_fwd = Some(osp),
+        2 => focus.omit_inv = Some(osp),
+        3 => {
+            focus.omit_fwd = Some(osp);
+            focus.omit_inv = Some(osp2);
+        }
+        4 => {
+            focus.inv = Some(isp);
+            focus.omit_fwd = Some(osp);
+        }
+        5 => {
+            focus.inv = Some(isp);
+            focus.omit_inv = Some(osp);
+        }
+        6 => {
+            // forward only: a wrongly executed inverse changes nothing but the count
+            focus.target = if pair % 2 == 0 { el("gravity", vec![fl("grs80")]) } else { el("curvature", vec![fl("mean"), kv("ellps", "intl")]) };
+            focus.omit_inv = Some(osp);
+        }
+        7 => {
+            focus.target = el("cart", vec![]);
+            focus.omit_fwd = Some(osp);
+        }
+        8 => {
+            focus.target = el("cart", vec![kv("ellps", "intl")]);
+            focus.omit_inv = Some(osp);
+        }
+        9 => focus.omit_inv = Some(osp), // the only step executed forward, the only one skipped inverse
+        _ => focus.omit_fwd = Some(osp),
+    }
+    let inverted = (pair / 2 + cfg / 4 + rep) % 2 == 1;
+    let invoke = |m: usize| {
+        let mut s = plain(Target::Macro(m));
+        if inverted {
+            s.inv = Some(isp);
+        }
+        s.lay = if lay == 0 { 0 } else { (h >> 16) as u32 | 1 };
+        s
+    };
+    let (macros, main) = match wh {
+        0 => (helpers, long),
+        1 => {
+            helpers.push(MacroDef { name: "m:long".into(), body: long });
+            (helpers, Body { steps: vec![invoke(2)], piped: false, lay, spicy: false })
+        }
+        2 => {
+            helpers.push(MacroDef { name: "m:long".into(), body: long });
+            (helpers, Body { steps: vec![plain(el("addone", vec![])), invoke(2), plain(el("helmert", vec![kv("x", 2), kv("y", -3)]))], piped: true, lay, spicy: false })
+        }
+        _ => {
+            // a long macro body as a step (among the first or the last steps, or around the 64th from either end) of a long pipeline
+            helpers.push(MacroDef { name: "m:long".into(), body: long });
+            let outer_len = [70, 65, 129][pair % 3];
+            let at = [outer_len - 1, 64, 0, outer_len - 65, 66 % outer_len, 3][(pair / 3 + cfg) % 6];
+            let mut outer = long_body(outer_len, (splitmix(pair as u64 + 977) as u32) | 1, 19, 1, lay);
+            outer.steps[at] = invoke(2);
+            (helpers, outer)
+        }
+    };
+    Case { macros, main, probes: long_probes(((pair + cfg) % 12) as u8), excluded: vec![], bulk: None }
+}
+
+/// the reference check, then the classes of the length dimension
+fn check_long(case: &Case, known: &BTreeSet<String>, rec: &mut Rec) -> CaseResult {
+    check(case, known, rec)?;
+    let reach = reachable(case);
+    let mut bodies: Vec<(&Body, &str)> = vec![(&case.main, "main")];
+    for m in &reach {
+        bodies.push((&case.macros[*m].body, "body"));
+    }
+    let mut longest_body = 0;
+    for (b, place) in &bodies {
+        if !b.piped {
+            continue;
+        }
+        let len = b.steps.len();
+        if *place == "body" {
+            longest_body = longest_body.max(len);
+        }
+        rec.class(&format!("long:{place}:len={}", len_label(len)));
+        let (mut of, mut oi, mut all_of, mut all_oi) = ([0u64; 3], [0u64; 3], true, true);
+        for (i, s) in b.steps.iter().enumerate() {
+            let back = len - 1 - i;
+            let kind = if matches!(s.target, Target::Macro(_)) { "macro" } else { "elem" };
+            if let Some(sp) = s.omit_fwd {
+                rec.class(&format!("long:{place}:omit_fwd@forward-visit-index={}", visit_label(i)));
+                if i >= 64 {
+                    rec.class(&format!("long:omit_fwd-beyond-64th-visited:{kind}:{}", sp_name(sp)));
+                }
+                for (k, e) in [64, 128, 256].into_iter().enumerate() {
+                    of[k] += (i >= e) as u64;
+                }
+            }
+            if let Some(sp) = s.omit_inv {
+                rec.class(&format!("long:{place}:omit_inv@inverse-visit-index={}", visit_label(back)));
+                if back >= 64 {
+                    rec.class(&format!("long:omit_inv-beyond-64th-visited:{kind}:{}", sp_name(sp)));
+                }
+                for (k, e) in [64, 128, 256].into_iter().enumerate() {
+                    oi[k] += (back >= e) as u64;
+                }
+            }
+            if s.inv.is_some() {
+                rec.class(&format!("long:{place}:inv@index={}", visit_label(i)));
+                rec.class(&format!("long:{place}:inv@index-from-end={}", visit_label(back)));
+            }
+            if let Target::Elem { name, .. } = &s.target {
+                if one_way(name) && s.omit_inv.is_some() {
+                    rec.class(&format!("long:count-only-witness(one-way step marked omit_inv)@inverse-visit-index={}", visit_label(back)));
+                }
+            }
+            all_of &= s.omit_fwd.is_some();
+            all_oi &= s.omit_inv.is_some();
+        }
+        for (k, e) in ["64", "128", "256"].into_iter().enumerate() {
+            rec.count(&format!("omit_fwd_steps_at_forward_visit_index>={e}"), of[k]);
+            rec.count(&format!("omit_inv_steps_at_inverse_visit_index>={e}"), oi[k]);
+        }
+        if len > 64 && (all_of || all_oi) {
+            rec.class("long:every-step-omitted-in-one-direction(len>64)");
+        }
+    }
+    if case.main.piped && case.main.steps.len() > 64 && longest_body > 64 {
+        rec.class("long:macro-body(>64 steps)-as-a-step-of-a-pipeline(>64 steps)");
+    }
+    if !case.main.piped && longest_body > 64 {
+        rec.class("long:macro-body(>64 steps)-invoked-alone");
+    }
+    if reach.len() >= 2 && bodies.iter().filter(|(b, p)| *p == "body" && b.piped && b.steps.len() > 64).count() >= 2 {
+        rec.class("long:two-nested-macro-bodies(>64 steps)");
+    }
+    Ok(())
+}
+
 // ---- known findings (read only) -----------------------------------------------------------------------
 
 fn load_known(root: &std::path::Path) -> BTreeSet<String> {
@@ -2514,5 +3021,35 @@ fn main() {
         );
     }
 
-    run.finish("generated definition ASTs (pipelines, macros nested to depth 3, all modifier spellings and positions, random layout) executed by the library and by a reference interpreter that applies the stand-alone elementary steps sequentially through the same public API; results compared bit for bit together with the counts, in both directions; one focus step enumerated exhaustively over all modifier subsets x spellings x 8 contexts; operands in all 36 container kinds (Coor4D/3D/2D/32 x Vec/array/slice x plain/(set,h,t)/(set,t)) with the reference applied to a container of the same kind, on pipelines whose intermediate results do not survive narrowing");
+    // 7. long pipelines, one directional step at the first / last / k-th / (len-k)-th positions
+    {
+        let table = placed_table();
+        let base = table.len() * PLACED_CFG * PLACED_WHERE;
+        let cross = run.is_thorough();
+        let n = if cross { 3 * base } else { table.len() * PLACED_CFG };
+        run.note("long_pipelines_placed_length_position_pairs", serde_json::json!(table.len()));
+        let known = known.clone();
+        run.sweep(
+            "long-pipelines-placed",
+            "pipelines of len = 1,2,3,5,7,8,9, 15..17, 31..33, 63..66, 70, 100, 127..130, 200, 255..258, 300 steps (cheap operators with finite, distinct results: addone, helmert translations by small integers, axisswap, noop; `inv` on one background step in seven) x ONE focus step at every position among: first three, middle, last three, and k-1, k, k+1 counted from the front and from the back for k = 8, 16, 32, 64, 128, 256 (all (len, position) pairs) x 11 configurations of the focus {inv; omit_fwd; omit_inv; both; inv+omit_fwd; inv+omit_inv; a one-way operator (gravity / curvature) marked omit_inv, whose wrongly executed inverse shows in the count only; cart marked omit_fwd resp. omit_inv with a NaN tuple among the operands (count n-1); every OTHER step omit_fwd and the focus omit_inv; every other step omit_inv and the focus omit_fwd} x 4 places of the long pipeline {the definition; a macro body invoked alone; a macro body as a step of a 3-step pipeline; a macro body as a step (first, last, 64th/65th from either end) of another pipeline of 65 / 70 / 129 steps} (quick: the place rotates with position and configuration, thorough: crossed), the invocation inverted in every other case; focus = elementary step / single-operator macro / macro with a pipeline body with a directional step, spellings (all six incl. < > sugar, five for inv) and plain / seeded layout rotate with the index (thorough: three rotations); 1..3 operand tuples; both directions, coordinates bit for bit and counts against the stand-alone steps applied one after another",
+            n,
+            move |i| placed_case(&table, i, cross),
+            move |c: &Case, rec: &mut Rec| check_long(c, &known, rec),
+        );
+    }
+
+    // 8. long pipelines, random
+    {
+        let n = run.scale(2_500, 100_000);
+        let known = known.clone();
+        run.section(
+            "long-pipelines",
+            "pipelines of 1..300 steps: 70% of the lengths from {1..10, 12, 15..17, 20, 24, 31..33, 40, 48, 63..67, 70, 80, 96, 100, 120, 127..130, 140, 160, 192, 200, 255..258, 260, 280, 300}, 20% uniform in 1..300, 10% uniform in 60..140; steps drawn from the cheap operators of long-pipelines-placed; background {no modifiers; inv on 1 step in 7; dense: inv 30% / omit_fwd 10% / omit_inv 10% per step in drawn spellings; every step omit_fwd; every step omit_inv} plus 0..4 placed steps {anywhere; k-2..k+2 from the front resp. from the back for an edge k in 8..256; among the first / the last three} carrying a drawn subset of inv / omit_fwd / omit_inv in drawn spellings, the placed step being left as it is (50%), replaced by a one-way operator marked omit_inv (count-only witness), or by cart (counts n-1 with a NaN tuple); shapes: the definition itself (50%), a long macro body invoked alone (with or without inv) or as a step of a 3-step pipeline with modifiers on the invocation, a long macro body (up to 140 steps) used once or twice as a step (placed like the other placed steps, with drawn modifiers) of a long pipeline, two long macro bodies (up to 100 steps each) nested below a pipeline of up to 150 steps; random delimiter layout, token layout on one step in four; 1..3 operand tuples (integers, decimals, one with NaN); both directions, coordinates bit for bit and counts against the stand-alone steps; non-trivial = some modifier present and >= 2 steps executed; distinct by spelled AST",
+            n,
+            move || long_case(kn),
+            move |c: &Case, rec: &mut Rec| check_long(c, &known, rec),
+        );
+    }
+
+    run.finish("generated definition ASTs (pipelines of 1..12 steps in general and of 1..300 steps, concentrated around powers of two, over cheap operators; macros nested to depth 3, all modifier spellings and positions, random layout) executed by the library and by a reference interpreter that applies the stand-alone elementary steps sequentially through the same public API; results compared bit for bit together with the counts, in both directions; one focus step enumerated exhaustively over all modifier subsets x spellings x 8 contexts; operands in all 36 container kinds (Coor4D/3D/2D/32 x Vec/array/slice x plain/(set,h,t)/(set,t)) with the reference applied to a container of the same kind, on pipelines whose intermediate results do not survive narrowing");
 }
